@@ -79,6 +79,7 @@ func kindNames(r lint.Registry) (cert, crl, oc []string, metas map[string]lint.L
 // stream "monitor": the real registry (global and some filtered ones) on corpus objects through the
 // three top-level entry points
 func genMonitor(out *Output, rng *Rng) {
+	lateRegistrationPrelude()
 	corpus := loadCorpus()
 	g := lint.GlobalRegistry()
 	regs := []lint.Registry{g}
